@@ -68,11 +68,10 @@ func ruleLDR1(c *Ctx) {
 		return
 	}
 	grl := findCalls(fn, func(ci ssa.CallInstruction) bool { return calleeNameIs(ci, "Grl") })
-	if len(grl) != 1 {
-		c.Fail("BuildRuleFromResource / parse call", p.Pos(fn.Pos()), "expected exactly one psr.Grl() call")
+	if len(grl) == 0 {
+		c.Fail("BuildRuleFromResource / parse call", p.Pos(fn.Pos()), "no psr.Grl() call (anchor lost)")
 		return
 	}
-	parse := grl[0]
 	// recognisers: values on which RemoveErrorListeners / AddErrorListener are called
 	type rec struct {
 		name       string
@@ -121,26 +120,64 @@ func ruleLDR1(c *Ctx) {
 			byRecv[r].addedIsRep = derivesFromValue(args[len(args)-1], rep)
 		}
 	}
-	// the lexer is the one feeding the token stream, the parser the receiver of Grl()
-	isLexer := func(v ssa.Value) bool { return strings.Contains(v.Type().String(), "Lexer") }
-	isParser := func(v ssa.Value) bool { return strings.Contains(v.Type().String(), "Parser") }
-	for _, kind := range []string{"lexer", "parser"} {
-		var r *rec
-		for v, x := range byRecv {
-			if (kind == "lexer" && isLexer(v)) || (kind == "parser" && isParser(v)) {
-				r = x
+	// for every parse (SLL stage, LL stage): the parser is the receiver of Grl(), the lexer the one feeding its token stream
+	lexerOf := func(psr ssa.Value) ssa.Value {
+		var found ssa.Value
+		backSlice(psr, func(v ssa.Value) bool {
+			if found != nil {
+				return false
 			}
+			if call, ok := v.(*ssa.Call); ok {
+				for _, a := range call.Call.Args {
+					x := a
+					if mi, isMI := x.(*ssa.MakeInterface); isMI {
+						x = mi.X
+					}
+					if strings.Contains(x.Type().String(), "Lexer") {
+						found = x
+						return false
+					}
+					// the token stream built from the lexer
+					if inner, isCall := x.(*ssa.Call); isCall {
+						for _, ia := range inner.Call.Args {
+							y := ia
+							if mi, isMI := y.(*ssa.MakeInterface); isMI {
+								y = mi.X
+							}
+							if strings.Contains(y.Type().String(), "Lexer") {
+								found = y
+							}
+						}
+					}
+				}
+			}
+			return found == nil
+		})
+		return found
+	}
+	for _, parse := range grl {
+		psrV := recvOf(parse)
+		for _, kind := range []string{"lexer", "parser"} {
+			var r *rec
+			switch kind {
+			case "parser":
+				r = byRecv[psrV]
+			case "lexer":
+				if lv := lexerOf(psrV); lv != nil {
+					r = byRecv[lv]
+				}
+			}
+			construct := "BuildRuleFromResource / " + kind + " reports into the reporter"
+			if r == nil || r.removed == nil || r.added == nil {
+				c.Fail(construct, p.InstrPos(parse.(ssa.Instruction)), "the "+kind+"'s default error listener is not replaced by the reporter: "+kind+" errors only go to the console and the text is accepted")
+				continue
+			}
+			before := func(a, b ssa.Instruction) bool {
+				return a.Block().Dominates(b.Block()) && (a.Block() != b.Block() || instrIndex(a) < instrIndex(b))
+			}
+			ok := r.addedIsRep && before(r.removed.(ssa.Instruction), r.added.(ssa.Instruction)) && before(r.added.(ssa.Instruction), parse.(ssa.Instruction))
+			c.Check(ok, construct, p.InstrPos(r.added), "RemoveErrorListeners, then AddErrorListener(reporter), both before psr.Grl()", fmt.Sprintf("%s error channel broken (listenerIsTheReporter=%v, order remove<add<parse violated otherwise)", kind, r.addedIsRep))
 		}
-		construct := "BuildRuleFromResource / " + kind + " reports into the reporter"
-		if r == nil || r.removed == nil || r.added == nil {
-			c.Fail(construct, p.Pos(fn.Pos()), "the "+kind+"'s default error listener is not replaced by the reporter: "+kind+" errors only go to the console and the text is accepted")
-			continue
-		}
-		before := func(a, b ssa.Instruction) bool {
-			return a.Block().Dominates(b.Block()) && (a.Block() != b.Block() || instrIndex(a) < instrIndex(b))
-		}
-		ok := r.addedIsRep && before(r.removed.(ssa.Instruction), r.added.(ssa.Instruction)) && before(r.added.(ssa.Instruction), parse.(ssa.Instruction))
-		c.Check(ok, construct, p.InstrPos(r.added), "RemoveErrorListeners, then AddErrorListener(reporter), both before psr.Grl()", fmt.Sprintf("%s error channel broken (listenerIsTheReporter=%v, order remove<add<parse violated otherwise)", kind, r.addedIsRep))
 	}
 	// the parser that parses is the one that got the reporter
 	// the listener is built with the same reporter and the same knowledge base
@@ -283,6 +320,9 @@ func ruleLDR2(c *Ctx) {
 		})
 		if !okc || kind != "bool" {
 			continue
+		}
+		if !w.Block().Dominates(b) {
+			continue // a look at the reporter before the walk decides how to parse (SLL first, then LL), it is not the gate
 		}
 		if !allReturnsNonNil(b.Succs[sTrue]) {
 			ok, why = false, "the `errors recorded` edge does not end in an error return"
